@@ -147,7 +147,8 @@ class C09Engine(Engine):
     def expected_probes(self, tier):
         return ["probe.arrival_order_differs_from_submission", "probe.delivered_before_iterator_exhausted",
                 "probe.prior_used_log_lin_log", "probe.same_options_under_3_thread_counts",
-                "probe.shared_prior_reused", "probe.repeat_call"]
+                "probe.shared_prior_reused", "probe.repeat_call", "probe.cache_file_written",
+                "probe.approx_prior_warm_vs_cold"]
 
     # ------------------------------------------------------------------
     def run(self, tape):
@@ -168,6 +169,15 @@ class C09Engine(Engine):
         mp = simmp.SimMP(tape, stats, log)
         real_mp = M["discrete"].multiprocessing
         M["discrete"].multiprocessing = mp
+        # the user cache directory is part of the history: every run starts with a cold cache in its own scratch
+        # directory (real files; the appdirs seam only redirects the location)
+        import appdirs
+        import shutil
+        import tempfile
+
+        box = tempfile.mkdtemp(prefix="verif-c09-")
+        real_ucd = appdirs.user_cache_dir
+        appdirs.user_cache_dir = lambda *a, **k: os.path.join(box, "cache")
         shared = []  # dicts: prior, params, ts index, original (lin copy), conversions, spaces
         reference = {}  # key -> ("ok", digest, times, md) | ("raised", type)
         seen_threads = {}
@@ -211,6 +221,12 @@ class C09Engine(Engine):
         finally:
             M["discrete"].multiprocessing = real_mp
             undo_clock()
+            appdirs.user_cache_dir = real_ucd
+            try:
+                if os.path.isdir(os.path.join(box, "cache")) and os.listdir(os.path.join(box, "cache")):
+                    stats["probe.cache_file_written"] += 1
+            finally:
+                shutil.rmtree(box, ignore_errors=True)
         res["events"] = len(history)
         res["sim_time"] = clk.now - 1_700_000_000.0
         res["digest"] = log.digest()
@@ -224,14 +240,19 @@ class C09Engine(Engine):
     def draw_prior_params(self, tape):
         tp = tape.pick("timepoints", [6, 10, 5, "array", 14])
         return {"Ne": tape.pick("Ne", [1.0, 100.0, 0.3]), "timepoints": tp,
-                "distr": tape.pick("distr", ["lognorm", "gamma"])}
+                "distr": tape.pick("distr", ["lognorm", "gamma"]),
+                # approximate priors read the on-disk lookup table: cold cache on first use, warm afterwards
+                "approx": tape.pick("approx", [0, 0, 7, 20, 7])}
 
     def build_prior(self, tsdate, ts, params):
         tp = params["timepoints"]
         if tp == "array":
             tp = np.array([0.0, 0.1, 0.3, 0.7, 1.5, 3.0, 8.0]) * params["Ne"]
+        kw = {}
+        if params.get("approx"):
+            kw = dict(approximate_priors=True, approx_prior_size=params["approx"])
         return tsdate.build_prior_grid(ts, population_size=params["Ne"], timepoints=tp,
-                                       prior_distribution=params["distr"])
+                                       prior_distribution=params["distr"], **kw)
 
     def draw_call(self, tape, n_ts, shared):
         call = {"ts": tape.choose("ts", n_ts),
@@ -306,6 +327,11 @@ class C09Engine(Engine):
             reference[key] = self.evaluate(tsdate, ts, kw_ref)
             stats["reference_evaluations"] += 1
         ref = reference[key]
+        if call["method"] != "variational_gamma":
+            kind_, x_ = call["prior"]
+            prm = shared[x_]["params"] if kind_ == "shared" else (x_ if kind_ == "fresh" else {})
+            if prm.get("approx") and kind_ == "fresh":
+                stats["probe.approx_prior_warm_vs_cold"] += 1  # the reference was built cold (or earlier), this one warm
         # ---- the call itself --------------------------------------------------------------------
         conv_before = None
         sh = None
